@@ -154,7 +154,8 @@ func main() {
 	runTables()     // symbol attribute table (black-box) and, if built white-box, stored tables
 	runGenerators() // generator polynomials through unit vectors
 	runECC()
-	runECCSpecial() // parity + interleaving, vector families
+	runECCSpecial()
+	runECCRegister() // parity + interleaving, vector families
 	if !chk.Quick() {
 		runECCValues()
 	}
@@ -177,6 +178,10 @@ func replay(c rcase) {
 	case "ecc":
 		if s, ok := symBySize(c.Rows, c.Cols); ok {
 			eccCase(l, s, c.Index)
+		}
+	case "eccr":
+		if s, ok := symBySize(c.Rows, c.Cols); ok {
+			eccRegisterCase(l, s, c.Index, c.N)
 		}
 	case "eccz":
 		if s, ok := symBySize(c.Rows, c.Cols); ok {
